@@ -23,7 +23,10 @@ extern CMB_THREAD_LOCAL void (*cmi_verif_sfc64_pre)(void);
 static const char *mode;
 
 static char g_sig[200];
-#define FAIL(rule, ...) do { snprintf(g_sig, sizeof g_sig, "c15:%s", rule); vx_violation(g_sig, __VA_ARGS__); } while (0)
+/* modes that run real, free-running threads (experiment workers): a finding may depend on their timing and is then
+ * not replayable - signature class "free:", as for the free-running sanitizer pass */
+static const char *g_sigclass = "";
+#define FAIL(rule, ...) do { snprintf(g_sig, sizeof g_sig, "%sc15:%s", g_sigclass, rule); vx_violation(g_sig, __VA_ARGS__); } while (0)
 
 /* ------------------------------------------------------------------ reference generator */
 struct refgen { uint64_t a, b, c, d; };
@@ -462,6 +465,7 @@ static void *xhelper(void *arg)
 
 static void run_experiment_mode(void)
 {
+    g_sigclass = "free:";
     const int rot = vx_choose_free(3, "seed-rotation");
     for (int i = 0; i < NTRIAL; i++) {
         xtr[i].seed = SEEDS[(i + rot) % 3];
